@@ -273,7 +273,7 @@ func capFlipWorkload(group string, iters int, seed int64) {
 	h.Write([]byte("capflip:" + group))
 	rng := rand.New(rand.NewSource(seed*7919 + int64(h.Sum32())))
 	procs := os.Getenv("GOMAXPROCS")
-	rounds := iters * 6
+	rounds := iters * 3
 	var tot struct{ rounds, completed, overlapRounds, changingOverlapRounds, mixedRounds, handshakes, failed, ops, opsOverlapped int64 }
 	perKind := map[kit.Kind]int64{}
 	for i := 0; i < rounds; i++ {
